@@ -150,6 +150,15 @@ def self_recursive(f):
     return False
 
 
+def _children_empty_decided(P):
+    """the path tested m_children.empty() and found it true"""
+    for c_, v_, h_ in P.decisions:
+        x_ = c_
+        while x_ is not None and x_.k in ('cast', 'paren') and x_.n('sub') is not None: x_ = x_.n('sub')
+        if x_ is not None and x_.k == 'call' and x_.callee_base() == 'empty' and x_.n('object') is not None and x_.n('object').is_field('m_children', NODE) and v_ is True: return True
+    return False
+
+
 class RouterAnalysis:
     def __init__(self, facts, rep):
         self.facts = facts; self.rep = rep; self.res = {}
@@ -730,11 +739,24 @@ class RouterAnalysis:
             for matches, leaf, regex, found in itertools.product([True, False], repeat=4):
                 if leaf and (regex or found): continue
                 if regex and found: continue
-                dom = RouterDomain(dict(matches=matches, leaf=leaf, regex=regex, found=found, child_empty=True))
+                orc_ = dict(matches=matches, leaf=leaf, regex=regex, found=found, child_empty=True)
+                if found: orc_['children_empty'] = False          # a child that is found is a child
+                dom = RouterDomain(orc_)
                 res = run_paths(F, sh, dom)
                 row = f'(matches={matches}, leaf={leaf}, next is regex={regex}, child found={found})'
                 for P, E in res:
                     if P.end in ('loop',): continue
+                    self.add = self.__class__.add.__get__(self)
+                    if matches and P.unknown_atoms:
+                        # the path was chosen by a condition the traversal tables know nothing about (a range guard on the level view): whether it can
+                        # be taken is not followed, so what is missing on it is not a refutation
+                        orig_add_ = self.add; ua_ = (P.unknown_atoms[0].text() or '')[:50]
+                        def soft_(rule, ok, inst, site_, why='', *a, _o=orig_add_, _u=ua_, **k):
+                            if ok is False: return _o(rule, None, inst, site_, f'on a path chosen by `{_u}`, a condition outside the traversal tables: {why}', *a, **k)
+                            return _o(rule, ok, inst, site_, why, *a, **k)
+                        self.add = soft_
+                    if matches and _children_empty_decided(P) and not any(e.kind == 'call' and (e.name == 'std::erase_if' or strip_targs(e.name) == f'{NODE}::shrink') for e in E):
+                        self.add('SH.3', True, f'shrink row {row}: a node without children has nothing to descend into and nothing to erase', sh.shortloc(), key='SH.3|no-children'); continue
                     er_if = [i for i, e in enumerate(E) if e.kind == 'call' and e.name == 'std::erase_if']
                     er = er_if + [i for i, e in enumerate(E) if (e.kind == 'call' and e.obj == 'm_children' and e.name.split('::')[-1] == 'erase') or (e.kind == 'call' and strip_targs(e.name) == f'{NODE}::isEmpty')]
                     rec = [i for i, e in enumerate(E) if e.kind == 'call' and strip_targs(e.name) == f'{NODE}::shrink']
@@ -772,6 +794,7 @@ class RouterAnalysis:
                     if not sel_known and not okr:
                         self.add('SH.3', None, f'shrink row {row}: recursion follows the child-selection rule', sh.shortloc(), 'the child is not selected by find(name): selection not followed'); continue
                     self.add('SH.3', okr, f'shrink row {row}: recursion follows the child-selection rule', sh.shortloc(), '' if okr else f'{len(rec)} recursive call(s) for {iters} children', key='SH.3|select')
+            self.add = self.__class__.add.__get__(self)
             if not any_prune: self.add('SH.3', False, 'shrink erases the empty children of a matching node', sh.shortloc(), 'no path of shrink removes anything: dead keys along the pattern are not removed', key='SH.3|order')
         # SH.4 exists / depth
         exf = F.fn(f'{NODE}::exists')
@@ -783,9 +806,11 @@ class RouterAnalysis:
                 if regex and found: continue
                 if not regex and che: continue
                 dom = RouterDomain(dict(matches=matches, leaf=leaf, regex=regex, found=found, child_exists=ce, children_empty=che))
-                vals = set(); full = []
+                vals = set(); full = []; soft_ex = None
                 for P, E in run_paths(F, exf, dom):
                     if P.end == 'loop': continue
+                    if matches and P.unknown_atoms:
+                        soft_ex = P.unknown_atoms[0]; continue          # chosen by a condition outside the tables (a range guard on the level view): not judged
                     v = P.ret if isinstance(P.ret, bool) else ('any' if P.ret is not None else None)
                     vals.add(v)
                     iters, _ = children_loop_iterations(exf, E)
@@ -793,6 +818,9 @@ class RouterAnalysis:
                     anyof = [e for e in E if e.kind == 'anyof' and e.obj == 'm_children']
                     full.append((v, iters, len(rec), bool(anyof)))
                 row = f'(matches={matches}, leaf={leaf}, regex={regex}, found={found}, child exists={ce}' + (f', no children={che}' if regex else '') + ')'
+                if soft_ex is not None:
+                    self.add('SH.4', None, f'exists row {row}', soft_ex.shortloc(), f'some paths are chosen by `{(soft_ex.text() or "")[:50]}`, a condition outside the traversal tables: not followed')
+                    if not vals: continue
                 if not matches: want = {False}
                 elif leaf: want = {True}
                 elif regex:
